@@ -421,9 +421,75 @@ partial def loop (h : IO.FS.Stream) (out : IO.FS.Stream) (w : Option World) (id 
         for l in lines do out.putStrLn l
         loop h out (some w') id
 
+/-! ### `--docwf`: is a generated document in the domain of the C02 theorem, is `render` the file
+that was fed to the implementation, and does the parser model return `expDoc`? -/
+
+structure DocSt where
+  cfg : Cfg := { delim := [], comment := [] }
+  items : List Item := []      -- newest first
+
+def byteOf (t : String) : Byte := (decHexChars t.toList).headD 0
+
+def tcOf (t : String) : Option TrailC :=
+  if t == "-" then none
+  else match t.splitOn ":" with
+    | [c, x] => some { c := byteOf c, text := decD x }
+    | _ => none
+
+def contsOf (t : Array String) (i : Nat) : Nat → List ContLine
+  | 0 => []
+  | n + 1 => { indent := decD (t.getD i ""), text := decD (t.getD (i + 1) ""), trail := decD (t.getD (i + 2) "") } :: contsOf t (i + 3) n
+
+def itemOf (t : Array String) : Option Item :=
+  let g := fun i => t.getD i ""
+  match g 1 with
+  | "b" => some (.blank (decD (g 2)))
+  | "c" => some (.comment (decD (g 2)) (byteOf (g 3)) (decD (g 4)))
+  | "s" => some (.sect (decD (g 2)) (decD (g 3)) (decD (g 4)) (tcOf (g 5)))
+  | "k" => some (.keyonly (decD (g 2)) (decD (g 3)) (decD (g 4)) (tcOf (g 5)))
+  | "e" =>
+    some (.entry { indent := decD (g 2), key := decD (g 3), ws1 := decD (g 4), d := byteOf (g 5), ws2 := decD (g 6),
+                   value := if g 7 == "q" then .quoted (decD (g 8)) else .plain (decD (g 8)),
+                   tws := decD (g 9), tc := tcOf (g 10), cont := contsOf t 12 (g 11).toNat! })
+  | _ => none
+
+def effCfg (cfg : Cfg) : Cfg := { cfg with comment := if cfg.comment.isEmpty then [0x23] else cfg.comment }
+
+def firstBad (cfg : Cfg) : List Item → Nat → Int
+  | [], _ => -1
+  | it :: r, i => if decide (it.WF cfg) then firstBad cfg r (i + 1) else (i : Int)
+
+def docCheck (st : DocSt) (content : Str) (fnl : Bool) : String :=
+  let doc := st.items.reverse
+  let cfgE := effCfg st.cfg
+  let inDom := docInDomain cfgE doc
+  let bad := if decide (CfgWF cfgE) then firstBad cfgE doc 0 else (-2 : Int)
+  let r := render doc
+  let renderOk := if fnl then r == content else r.dropLast == content
+  let parseOk := match parseBytes st.cfg content with
+    | .ok s => if fnl then s == expDoc doc else s.entries == (expDoc doc).entries && s.groups == (expDoc doc).groups
+    | .error _ => false
+  s!"docwf in={if inDom then 1 else 0} bad={bad} render={if renderOk then 1 else 0} parse={if parseOk then 1 else 0} items={doc.length}"
+
+partial def docLoop (h : IO.FS.Stream) (out : IO.FS.Stream) (st : DocSt) : IO Unit := do
+  let line ← h.getLine
+  if line.isEmpty then return ()
+  let t := splitTokens line.trimAsciiEnd.toString
+  match t.getD 0 "" with
+  | "DOC" => docLoop h out { cfg := { delim := decD (t.getD 1 ""), comment := decD (t.getD 2 "") }, items := [] }
+  | "IT" =>
+    match itemOf t with
+    | some it => docLoop h out { st with items := it :: st.items }
+    | none => out.putStrLn "docwf bad-item"; docLoop h out st
+  | "CHECK" =>
+    out.putStrLn (docCheck st (decD (t.getD 1 "")) (t.getD 2 "1" == "1"))
+    docLoop h out st
+  | _ => docLoop h out st
+
 end Drv
 
-def main : IO Unit := do
+def main (args : List String) : IO Unit := do
   let stdin ← IO.getStdin
   let stdout ← IO.getStdout
-  Drv.loop stdin stdout none ""
+  if args.contains "--docwf" then Drv.docLoop stdin stdout {}
+  else Drv.loop stdin stdout none ""
